@@ -1206,7 +1206,8 @@ func (s *netSim) finalNet() {
 			}
 			r.out.Probes["heal_not_recovered"]++
 			r.log.Addf("no recovery: heights at heal %v, now %v", s.healHeights, hs)
-			if healAssert {
+			// (bounded liveness after faults is C19's statement; C07 and C17 runs of this simulation only measure it)
+			if healAssert && r.prop == "C19" {
 				// the recorded dBFT 2.0 deadlock: some validators have sent their Commit in a view (commits are never
 				// revoked) while the others - having missed the preparations - moved to a higher view before they learnt
 				// of those commits; neither group reaches M, further view changes are refused (nc+nf > f) for good
